@@ -27,6 +27,50 @@ CLAIMED = {
    text="Bounded symbolic model checking of the wire round trip: the real MessageFactory builds each of the five message types (VIEW_CHANGE with/without prepared proof of 0..3 PREPAREs, NEW_VIEW re-encoding 0..4 votes through ExtractConfirmationsFromViewChangeMessages) and block proofs from 1..4 commits, with all field contents symbolic; ToConsensusRawMessage -> ToConsensusMessage must give back equal type, instance, height, view, hash, sender, nested proof/vote fields, identical raw bytes, and every signature must still verify over the re-read bytes. Equalities are decided as term identities for all values at once.",
    note="Trusted: gosym interpreter (term rewriting of little-endian split/recompose is part of the engine), ideal signature registry. Field lengths limited to {0,1,2,3,4,5,8,32}.",
    design="6/C20"),
+ "C08": dict(
+   text="Bounded symbolic model checking of message acceptance at one real node (RawMessageFilter -> ConsensusMessagesFilter -> TermInCommittee, real storage): in each of 6 prefix states reached by the real handlers on honest traffic, one PREPREPARE / PREPARE / COMMIT / VIEW_CHANGE whose every field is symbolic (instance, header type tag, 64-bit height and view, hash, sender id incl. outsiders, signature validity, share validity, block, and for votes a prepared proof with all fields and up to 3 PREPARE senders symbolic) is delivered; any influence (Store* call, send, view/height change, commit) must imply the reference predicate of the statement (authentic, member, instance, height, role, non-stale, proof predicate).",
+   note="Trusted: gosym interpreter; ideal signature registry, proposal/commitment stubs; committee of 4 equal weights; node index symbolic.",
+   design="6/C08"),
+ "C07": dict(
+   text="Bounded symbolic model checking of NEW_VIEW acceptance at one real node: one NEW_VIEW whose header, embedded proposal and each of 0..4 votes (incl. prepared proofs) are entirely symbolic is delivered to a fresh / timed-out / locked node; adopting the view, storing the proposal or sending PREPARE must imply: signed by leader(v), for this instance/height/view, a set of validly signed votes for (instance,height,v) from distinct members of quorum weight, proposal = block and hash of the highest valid prepared proof among them or else approved by ValidateBlockProposal in this step. A symbolic stand-alone PREPREPARE covers the bare-proposal clause (known finding S7). The leader-side clause is decided by the C09 leader harness.",
+   note="Trusted: as C08. Known finding: bare PREPREPARE in view>0 (known_findings.json).",
+   design="6/C07"),
+ "C09": dict(
+   text="Bounded symbolic model checking of the lock hand-over on the real code: (vote side) a node that accepted the proposal receives PREPAREs from a symbolic subset, optionally adopts view 1 through an honest locked NEW_VIEW and prepares there, then times out; its VIEW_CHANGE must carry a proof iff it is prepared, for its latest prepared view, with the matching block, accepted by another member's real ValidatePreparedProof and by the reference predicate. (leader side) the leader of view 2 receives votes of 5 shapes from 3 members in 3 orders; the NEW_VIEW it emits must embed exactly the votes counted, propose the block/hash of the highest-view proof among them, and request a fresh block iff none carries a proof.",
+   note="Trusted: as C08; concrete weight vectors [1,1,1,1],[3,1,1,1],[1,2,3,4],[2,2,1,1].",
+   design="6/C09"),
+ "C10": dict(
+   text="Bounded symbolic model checking of the outbox of one real node over sequences of 2 (quick) / up to 3 (thorough) events, each a fully symbolic PREPREPARE / PREPARE / COMMIT / VIEW_CHANGE, an election timeout or a re-delivery, from 4 prefix states: per (height,view) one proposal hash, one PREPARE hash, one COMMIT hash; PREPARE only for the stored proposal of that view's leader, never as leader, only in the node's current view; COMMIT only with a prepared certificate or commit quorum in the log; VIEW_CHANGE views strictly increase; no PREPREPARE/PREPARE for a view below the current one.",
+   note="Trusted: as C08.",
+   design="6/C10"),
+ "C11": dict(
+   text="Bounded symbolic model checking on two real nodes: a producer accepts up to 2 fully symbolic adversarial inputs (PREPAREs before its vote, VIEW_CHANGEs with/without proof before its NEW_VIEW) plus honest traffic; every VIEW_CHANGE, NEW_VIEW, PREPARE and COMMIT it then emits is delivered to a correct peer in a state satisfying the statement's precondition, which must show the effect (vote stored by the addressed leader; view adopted and PREPARE sent; PREPARE/COMMIT stored).",
+   note="Trusted: as C08; both nodes share registry and committee.",
+   design="6/C11"),
+ "C03": dict(
+   text="Bounded symbolic model checking: a real node holding the proposal receives genuine COMMITs and up to 3 fully symbolic COMMITs (any header incl. type tag, any sender incl. outsiders with valid keys, signature and share validity symbolic); whenever its commit callback fires, the (block, proof) it hands out must be accepted by the strict ValidateBlockConsensus of a second real node with the same committee and previous proof; at most one commit per term.",
+   note="Trusted: as C08.",
+   design="6/C03"),
+ "C04": dict(
+   text="Same runs as C03 with external-validity assertions at the commit callback: block height = term height, block satisfies the certified hash, the stored PREPREPARE of the certified view is validly signed by that view's leader and carries the delivered block, and the block was approved by this node's ValidateBlockProposal (blocks with a symbolic proposal-OK flag) or produced by its own RequestNewBlockProposal.",
+   note="Trusted: as C08; approval is judged at the committing node itself.",
+   design="6/C04"),
+ "C17": dict(
+   text="Bounded symbolic model checking of the real RawMessageFilter + State: k operations (3,4 quick; up to 5 thorough), each a symbolic choice of receiving a message with symbolic 64-bit height / instance / sender or advancing to a symbolic larger height and draining the cache; assertions at every delivery (own height only, right instance, not own, at most once, arrival order per height, never a past message) and the guaranteed-delivery clause at every advance.",
+   note="Trusted: gosym interpreter (fork-mode maps with symbolic keys). Reading of the ordering clause as documented in DESIGN.md 6/C17.",
+   design="6/C17"),
+ "C15": dict(
+   text="Bounded symbolic model checking of the real ViewContexts (k operations For/CancelOlderThan/Shutdown with symbolic 64-bit arguments against a reference model: never a context for a superseded position or after shutdown, availability otherwise, idempotence, exactly the older contexts cancelled), of all 6 blocking SPI call sites with stubs that cancel at the blocking point (context handed out is the registry's context of the position worked on; a result produced under a cancelled context leads to no send and no store; committee polling stops), and of MainLoop.run in the channel model (on election trigger / sync everything older is cancelled, and nothing newer, at the moment the event is forwarded to the worker; shutdown cancels everything).",
+   note="Trusted: gosym interpreter incl. context and channel models; wall-clock promptness is outside.",
+   design="6/C15"),
+ "C13": dict(
+   text="Bounded symbolic model checking under a statically checked sequential reduction: (i) State mutators with symbolic arguments from a symbolic state keep (height, view) lexicographically non-decreasing with view reset exactly on height increase; (ii) the real WorkerLoop from a symbolic start height over 2 (quick) / 3 (thorough) events out of {honest commit round with symbolic callback failure, sync to a symbolic height, election timeout, re-delivered old traffic}: round-callback heights strictly increase, commit-callback heights strictly increase, one commit per round, a commit for h is only followed by rounds above h.",
+   note="Trusted: gosym interpreter; the reduction's single-writer premise is a static SSA check reported in the evidence, not a solver result; real goroutine interleavings are outside.",
+   design="6/C13"),
+ "C14": dict(
+   text="Bounded symbolic model checking of node sync: the worker's handling of UpdateState for a symbolic block height from a symbolic start height (at/above the current height: the node enters height b+1, the round callback gets canBeFirstLeader=false, no view-0 PREPREPARE above height 1; below: nothing changes), and MainLoop.run in the channel model for 1..3 UpdateState calls with symbolic heights and an empty or pre-filled worker slot (the loop never blocks, every call is received, the single slot ends up holding the newest sync).",
+   note="Trusted: as C13, plus the statically checked fact that only MainLoop methods send on the worker's channels.",
+   design="6/C14"),
 }
 
 NOT_APPLICABLE = {
